@@ -464,6 +464,16 @@ impl ArchiveIndex {
             footer_data[19],
         ]);
 
+        // The footer was located with the hash size probed at offset -13; the
+        // footer's own hash-size field must agree, otherwise the footer was
+        // read at the wrong position (and a stored hash of another length
+        // than the field claims cannot be written back consistently).
+        if footer_hash_bytes != footer_hash_bytes_check {
+            return Err(ArchiveError::InvalidFormat(format!(
+                "Footer hash size mismatch: located footer with {footer_hash_bytes} hash bytes, footer field says {footer_hash_bytes_check}"
+            )));
+        }
+
         // Read variable-length footer hash
         let mut footer_hash = vec![0u8; footer_hash_bytes as usize];
         reader.read_exact(&mut footer_hash)?;
